@@ -842,7 +842,9 @@ class Interp:
                 out.extend(items)
             else:
                 out.append(self.eval(e, fr))
-        return Seq(out, "list")
+        r_ = Seq(out, "list")
+        r_.born = (fr.fn, getattr(node, "lineno", 0), getattr(node, "col_offset", 0))  # which list literal this list started as (kept by copies)
+        return r_
 
     def e_Set(self, node, fr):
         return Seq([self.eval(e, fr) for e in node.elts], "set")
@@ -1232,6 +1234,9 @@ def _fork(v, memo):
         c = Seq([], v.kind)
         memo[i] = (v, c)
         c.items = [_fork(x, memo) for x in v.items]
+        for a in ("born", "accumulated", "of_frame", "sorted", "sort_kwargs"):
+            if hasattr(v, a):
+                setattr(c, a, getattr(v, a))
         return c
     if isinstance(v, DictV):
         c = DictV()
